@@ -117,7 +117,8 @@ chk('C11', 'translation_validation',
     'the round trips cov -> (corr, se) -> cov for ALL matrices of size n <= 3 (thorough: inverse-free ones n = 4); UCP '
     'matrix kernel: estimation._descale_matrix(u0, _scale_matrix(A)) = A for all A = L.L^T, n <= 3, every sign pattern '
     'of the off-diagonal Cholesky entries (initial UCPs 0.1 / +-0.1 by NONMEM convention; cholesky = contract stub).',
-    'NOT claimed: nearest PSD repair, parameters_sdcorr, the theta part of UCP scaling (np.linalg eig/svd, math.log and '
+    'NOT claimed: nearest PSD repair, parameters_sdcorr (only a concrete companion probe, probe:sdcorr, on six fixed '
+    'collections incl. variance parameters shared between distributions), the theta part of UCP scaling (np.linalg eig/svd, math.log and '
     'symengine substitution, out of solver reach); float rounding. Trusted: the harness table; sympy->z3 translation; numpy object-'
     'array semantics; np.linalg.inv replaced by its contract (A.X = X.A = I).',
     'z3 entrywise equality of covariance structures after real RandomVariables operations; symbolic execution of the '
